@@ -208,7 +208,9 @@ func (r *Run) DistinctShapes() int {
 func (r *Run) Finish() int {
 	r.mu.Lock()
 	defer r.mu.Unlock()
-	defer os.RemoveAll(r.RunDir)
+	if os.Getenv("VERIF_KEEP") == "" {
+		defer os.RemoveAll(r.RunDir)
+	}
 	evDir := filepath.Join(r.Root, "evidence")
 	os.MkdirAll(filepath.Join(evDir, "replay"), 0o755)
 	// stale replay files of this property
